@@ -36,6 +36,11 @@ CLAUSES = {
     "eq_container": "equality with another container holds exactly when the tag/value content is the same",
     "eq_dict": "equality with a plain dict holds exactly when the tag/value content is the same "
                "(ignoring the four framing tags for dicts)",
+    "nested": "a message container behaves like an insertion-ordered map from integer tags to strings or lists of "
+              "nested containers (a nested container reached through a group accessor is itself such a container)",
+    "pure": "for any sequence of operations (set / ... / group lookups / query / equality / pickle round trip) the "
+            "container behaves like the reference map: lookups, comparisons and pickling do not change what later "
+            "operations and observations yield",
     "pickle": "pickle round trip preserves the container (quantifier: pickle round trip compared with the model)",
 }
 
@@ -82,7 +87,16 @@ class Menu:
             (1.5, "1.5", "float"),
             (FOrdSide.BUY, "1", "enum"),
             (SEP, SEP, "sep"),
+            ("", "", "emptystr"),  # a legal value whose string form is falsy
         ]
+        # operations on a group item reached through an accessor: (label, inner tag spelling, canonical, ...)
+        self.INNER = [
+            ("set_new", 78, "78"),          # item.set(78, A)        (78 is in no menu item)
+            ("set_replace", 55, "55"),      # item.set(55, B, replace=True)
+            ("del", "1", "1"),              # del item["1"]
+            ("set_dup", FTag.Account, "1"),  # item.set(FTag.Account, A) -> refused when the item holds tag 1
+        ]
+        self.ACCESSORS = ["get_group_by_index", "get_group_list", "get_group_by_tag"]
         # group items (one nesting level); model None => the item must be refused
         self.ITEMS = [
             Item([(1, A)], (("1", A),), "item_0"),
@@ -150,6 +164,13 @@ class Menu:
         for ti in (2, 0, 6):
             for li in range(self.N_VALID_LISTS, len(self.LISTS)):
                 ops.append(("set_group", ti, li))
+        # group item reached through an accessor, then modified: ("item", tag, position, accessor, inner op)
+        for ti in (0, 1, 2, 3, 5):
+            for pos in (0, 1):
+                for io in range(len(self.INNER)):
+                    accs = (0, 1, 2) if ti == 2 else ((ti + pos + io) % 3,)
+                    for ac in accs:
+                        ops.append(("item", ti, pos, ac, io))
         return ops
 
     # ---- presentation ------------------------------------------------------
@@ -168,6 +189,19 @@ class Menu:
         if kind == "add_group":
             g = self.item_src(op[2], op[3])
             return f"c.add_group({t}, {g}{'' if (op[4] == -1 and not op[3]) else ', ' + str(op[4])})"
+        if kind == "item":
+            acc = self.ACCESSORS[op[3]]
+            if acc == "get_group_by_index":
+                g = f"c.get_group_by_index({t}, {op[2]})"
+            elif acc == "get_group_list":
+                g = f"c.get_group_list({t})[{op[2]}]"
+            else:
+                g = f"c.get_group_by_tag({t}, <a tag/value only item {op[2]} has>)"
+            label, it, _c = self.INNER[op[4]]
+            its = "FTag.Account" if it is FTag.Account else repr(it)
+            inner = {"set_new": f".set({its}, {self.A!r})", "set_replace": f".set({its}, {self.B!r}, replace=True)",
+                     "set_dup": f".set({its}, {self.A!r})"}.get(label)
+            return f"del {g}[{its}]" if label == "del" else g + inner
         if kind == "set_group":
             parts = []
             for m in self.LISTS[op[2]][0]:
@@ -233,6 +267,30 @@ def model_apply(M, st, op):
         else:
             new = cur[:idx] + (item,) + cur[idx:]
         return "ok", tuple((k, new if k == canon else v) for k, v in st)
+    if kind == "item":
+        if tk != "group":
+            return "skip", st
+        cur = dict(st)[canon]
+        pos = op[2]
+        if pos >= len(cur):
+            return "skip", st
+        if M.ACCESSORS[op[3]] == "get_group_by_tag" and unique_key(cur, pos) is None:
+            return "skip", st
+        item = cur[pos]
+        label, _sp, ic = M.INNER[op[4]]
+        has = any(k == ic for k, _v in item)
+        if label == "set_new" or label == "set_dup":
+            if has:
+                return "dup", st
+            new = item + ((ic, M.A),)
+        elif label == "set_replace":
+            new = tuple((k, M.B if k == ic else v) for k, v in item) if has else item + ((ic, M.B),)
+        else:  # del
+            if not has:
+                return "skip", st
+            new = tuple(kv for kv in item if kv[0] != ic)
+        nl = cur[:pos] + (new,) + cur[pos + 1:]
+        return "ok", tuple((k, nl if k == canon else v) for k, v in st)
     if kind == "set_group":
         lm = M.LISTS[op[2]][1]
         if lm is None:
@@ -245,8 +303,17 @@ def model_apply(M, st, op):
     raise AssertionError(op)
 
 
+def unique_key(items, pos):
+    """A (tag, value) pair that only item pos of the list holds, or None."""
+    for kv in items[pos]:
+        if sum(1 for it in items if kv in it) == 1:
+            return kv
+    return None
+
+
 MUT_CLAUSE = {
     # (op kind, expectation) -> clause id
+    ("item", "ok"): "nested", ("item", "dup"): "dup_refused",
     ("set", "ok"): "readback", ("setitem", "ok"): "readback",
     ("set", "dup"): "dup_refused", ("setitem", "dup"): "dup_refused",
     ("set", "refuse_set"): "nonint_tag", ("setitem", "refuse_set"): "nonint_tag",
@@ -274,10 +341,28 @@ def make_item(M, ii, form):
     return FIXContainer(d) if form else d
 
 
-def real_apply(M, obj, op):
+def real_apply(M, obj, op, st=None):
+    """Execute one mutator on the real object (st = model state before; needed by the nested-item ops only)."""
     kind = op[0]
     tag = M.TAGS[op[1]][0]
     try:
+        if kind == "item":
+            acc = M.ACCESSORS[op[3]]
+            if acc == "get_group_by_index":
+                g = obj.get_group_by_index(tag, op[2])
+            elif acc == "get_group_list":
+                g = obj.get_group_list(tag)[op[2]]
+            else:
+                gk, gv = unique_key(dict(st)[M.TAGS[op[1]][1]], op[2])
+                g = obj.get_group_by_tag(tag, int(gk) if op[2] else gk, gv)
+            label, it, _c = M.INNER[op[4]]
+            if label == "del":
+                del g[it]
+            elif label == "set_replace":
+                g.set(it, M.B, replace=True)
+            else:
+                g.set(it, M.A)
+            return None
         if kind == "set":
             raw = M.VALUES[op[2]][0]
             if op[3]:
@@ -311,8 +396,15 @@ def op_of(M, x):
 
 def rebuild(M, cls, path):
     obj = new_root(cls)
-    for oi in path:
-        real_apply(M, obj, op_of(M, oi))
+    ops = [op_of(M, oi) for oi in path]
+    if not any(op[0] == "item" for op in ops):
+        for op in ops:
+            real_apply(M, obj, op)
+        return obj
+    st = ()
+    for op in ops:
+        real_apply(M, obj, op, st)
+        st = model_apply(M, st, op)[1]
     return obj
 
 
@@ -366,12 +458,14 @@ def check_mut(M, cls, path, st, op, shared=None):
     shared: a real object already in state st that may be used when the model expects a refusal
     (the op must leave it unchanged); `reusable` tells whether it still is in state st afterwards."""
     expect, nst = model_apply(M, st, op)
+    if expect == "skip":  # not applicable in this state (nested-item op without such an item)
+        return None, expect, st, {}, True
     if shared is not None and expect != "ok":
         obj = shared
     else:
         obj = rebuild(M, cls, path)
         shared = None
-    exc = real_apply(M, obj, op)
+    exc = real_apply(M, obj, op, st)
     fail = judge(expect, exc)
     got = None
     if shared is not None or fail is None or fail == "accepted" or fail.startswith("wrong_error"):
@@ -404,6 +498,8 @@ def _deltas(M, op):
                 out.append((3, (0,), "as_container"))
         else:
             out.append((2, None, M.ITEMS[op[2]].label))
+    if kind == "item" and op[3] != 0:
+        out.append((3, (0,), "via_" + M.ACCESSORS[op[3]]))
     if kind == "set_group":
         if op[2] >= M.N_VALID_LISTS:
             out.append((2, None, M.LISTS[op[2]][2]))
@@ -434,6 +530,8 @@ def classify_mut(M, cls, path, st, op, fail):
 
 
 def opname(op):
+    if op[0] == "item":
+        return "item_" + ("set_new", "set_replace", "del", "set_dup")[op[4]]
     return "set_replace" if (op[0] == "set" and op[3]) else op[0]
 
 
@@ -509,53 +607,54 @@ def observe_tags(M, c, st, o):
             continue
         v = d.get(canon)
         tk = "absent" if v is None else ("plain" if isinstance(v, str) else "group")
-        o.outcomes.add(("observe", tk, sk))
+        tkl = "plain_empty" if v == "" else tk  # cause class: a plain tag whose value is the empty string
+        o.outcomes.add(("observe", tkl, sk))
         # ---- get / [] ------------------------------------------------------
         for name, fn, src in (("get", c.get, f"c.get({ts})"), ("getitem", c.__getitem__, f"c[{ts}]")):
             r = call(fn, tag)
             o.n += 1
             if tk == "plain":
                 if not _plain_ok(r, v):
-                    o.add("readback", name, tk, sk, canon, r, repr(v), src)
+                    o.add("readback", name, tkl, sk, canon, r, repr(v), src)
             elif tk == "absent":
                 if not _raises(r, TagNotFoundError):
-                    o.add("group_errors", name, tk, sk, canon, r, "TagNotFoundError", src)
+                    o.add("group_errors", name, tkl, sk, canon, r, "TagNotFoundError", src)
             else:
                 if not _raises(r, FIXMessageError, TagNotFoundError):
-                    o.add("group_errors", name, tk, sk, canon, r, "FIXMessageError (not TagNotFoundError)", src)
+                    o.add("group_errors", name, tkl, sk, canon, r, "FIXMessageError (not TagNotFoundError)", src)
         for dflt, dsrc in ((None, "None"), (DFLT, "D")):
             r = call(c.get, tag, dflt)
             o.n += 1
             src = f"c.get({ts}, {dsrc})"
             if tk == "plain":
                 if not _plain_ok(r, v):
-                    o.add("readback", "get_default", tk, sk, canon, r, repr(v), src)
+                    o.add("readback", "get_default", tkl, sk, canon, r, repr(v), src)
             elif tk == "absent":
                 if not (r[0] and r[1] is dflt):
-                    o.add("ordered_map", "get_default", tk, sk, canon, r, "the default", src)
+                    o.add("ordered_map", "get_default", tkl, sk, canon, r, "the default", src)
             else:
                 if not (_raises(r, FIXMessageError, TagNotFoundError) or (r[0] and r[1] is dflt)):
-                    o.add("group_errors", "get_default", tk, sk, canon, r, "FIXMessageError or the default", src)
+                    o.add("group_errors", "get_default", tkl, sk, canon, r, "FIXMessageError or the default", src)
         # ---- contains / is_group -------------------------------------------
         r = call(c.__contains__, tag)
         o.n += 1
         if not (r[0] and bool(r[1]) == (tk != "absent")):
-            o.add("ordered_map", "contains", tk, sk, canon, r, repr(tk != "absent"), f"{ts} in c")
+            o.add("ordered_map", "contains", tkl, sk, canon, r, repr(tk != "absent"), f"{ts} in c")
         r = call(c.is_group, tag)
         o.n += 1
         want = {"absent": None, "plain": False, "group": True}[tk]
         if not (r[0] and r[1] is want):
-            o.add("group_errors", "is_group", tk, sk, canon, r, repr(want), f"c.is_group({ts})")
+            o.add("group_errors", "is_group", tkl, sk, canon, r, repr(want), f"c.is_group({ts})")
         # ---- get_group_list --------------------------------------------------
         r = call(c.get_group_list, tag)
         o.n += 1
         src = f"c.get_group_list({ts})"
         if tk == "absent":
             if not _raises(r, TagNotFoundError):
-                o.add("group_errors", "get_group_list", tk, sk, canon, r, "TagNotFoundError", src)
+                o.add("group_errors", "get_group_list", tkl, sk, canon, r, "TagNotFoundError", src)
         elif tk == "plain":
             if not _raises(r, UnmappedRepeatedGrpError):
-                o.add("group_errors", "get_group_list", tk, sk, canon, r, "UnmappedRepeatedGrpError", src)
+                o.add("group_errors", "get_group_list", tkl, sk, canon, r, "UnmappedRepeatedGrpError", src)
         else:
             good = r[0]
             if good:
@@ -565,7 +664,7 @@ def observe_tags(M, c, st, o):
                     got = ("!", ename(e))
                 good = got == v
             if not good:
-                o.add("group_order", "get_group_list", tk, sk, canon, r, repr(v), src)
+                o.add("group_order", "get_group_list", tkl, sk, canon, r, repr(v), src)
         # ---- get_group_by_index ----------------------------------------------
         n = len(v) if tk == "group" else 0
         for i in range(n + 1):
@@ -574,10 +673,10 @@ def observe_tags(M, c, st, o):
             src = f"c.get_group_by_index({ts}, {i})"
             if tk == "absent":
                 if not _raises(r, TagNotFoundError):
-                    o.add("group_errors", "get_group_by_index", tk, sk, canon, r, "TagNotFoundError", src)
+                    o.add("group_errors", "get_group_by_index", tkl, sk, canon, r, "TagNotFoundError", src)
             elif tk == "plain":
                 if not _raises(r, FIXMessageError):
-                    o.add("group_errors", "get_group_by_index", tk, sk, canon, r, "a FIXMessageError", src)
+                    o.add("group_errors", "get_group_by_index", tkl, sk, canon, r, "a FIXMessageError", src)
             elif i < n:
                 if not (r[0] and snap_item(r[1]) == v[i]):
                     o.add("group_order", "get_group_by_index", "group_in_range", sk, canon, r, repr(v[i]), src)
@@ -595,10 +694,10 @@ def observe_tags(M, c, st, o):
             gsk = "enum" if gt is FTag.Account else type(gt).__name__
             if tk == "absent":
                 if not _raises(r, TagNotFoundError):
-                    o.add("group_errors", "get_group_by_tag", tk, sk, canon, r, "TagNotFoundError", src)
+                    o.add("group_errors", "get_group_by_tag", tkl, sk, canon, r, "TagNotFoundError", src)
             elif tk == "plain":
                 if not _raises(r, FIXMessageError):
-                    o.add("group_errors", "get_group_by_tag", tk, sk, canon, r, "a FIXMessageError", src)
+                    o.add("group_errors", "get_group_by_tag", tkl, sk, canon, r, "a FIXMessageError", src)
             else:
                 matches = [it for it in v if dict(it).get(gcanon) == gv]
                 if not matches:
@@ -624,7 +723,7 @@ def observe_tags(M, c, st, o):
                 else:
                     good = norm is not None and all(k == canon and x is None for k, x in norm.items())
             if not good:
-                o.add("readback" if tk == "plain" else "ordered_map", "query", tk, sk, canon, r,
+                o.add("readback" if tk == "plain" else "ordered_map", "query", tkl, sk, canon, r,
                       repr({canon: v}), f"c.query({ts})")
 
 
@@ -704,7 +803,7 @@ def container_variants(M, st, full=True):
         elif full or i == last:
             if v:
                 it = v[0]
-                it2 = ((it[0][0], it[0][1] + "z"),) + it[1:]
+                it2 = (((it[0][0], it[0][1] + "z"),) + it[1:]) if it else (("1", "z"),)
                 out.append(("group_item_value_changed", st[:i] + ((k, (it2,) + v[1:]),) + st[i + 1:], False))
                 if full:
                     out.append(("group_item_removed", st[:i] + ((k, v[:-1]),) + st[i + 1:], False))
@@ -854,10 +953,11 @@ def has_list(d):
     return any(isinstance(v, list) for v in d.values())
 
 
-def observe(M, cls, path, st, acc, full=True):
+def observe(M, cls, path, st, acc, full=True, obj=None, check="observe"):
     """All observers in one state; failures are recorded in acc -> (number of real calls, outcomes).
-    full=False: fewer second operands for the equality observers (used on the deepest level only)."""
-    c = rebuild(M, cls, path)
+    full=False: fewer second operands for the equality observers (used on the deepest level only).
+    obj: observe this object (claimed to be in state st) instead of a freshly built one."""
+    c = rebuild(M, cls, path) if obj is None else obj
     o = Obs()
     observe_tags(M, c, st, o)
     observe_whole(M, cls, path, c, st, o, full)
@@ -879,9 +979,66 @@ def observe(M, cls, path, st, acc, full=True):
             detail = dict(detail)
             detail.update({"root": cls, "history": [M.describe(op_of(M, i)) for i in path], "model_state": st})
             acc[sig] = {"signature": sig, "clause": CLAUSES[clause], "detail": detail, "count": 1,
-                        "replay": {"cls": cls, "path": [list(op_of(M, i)) for i in path], "check": "observe",
+                        "family": f"{clause}" if observer == "eq" else f"{clause}:{observer}",
+                        "replay": {"cls": cls, "path": [list(op_of(M, i)) for i in path], "check": check,
                                    "seed": M.seed, "signature": sig}}
     return o.n, o.outcomes
+
+
+def purity(M, cls, path, st, acc, outcomes, only_items=False):
+    """Observers are pure: on ONE object run all observers (lookups, query, pickle, every comparison), apply a
+    mutator to that same object (and to a pickled copy of it), then observe again, judged by the model state after
+    the mutator. Anything that fails there but not on a freshly built object for path+mutator is a violation.
+    -> number of real calls."""
+    n = 0
+    for op in M.OPS:
+        if only_items and op[0] != "item":
+            continue
+        expect, nst = model_apply(M, st, op)
+        if expect == "skip":
+            continue
+        variants = ("same_object", "pickled_copy") if (op[0] == "item" or base_of(M, op) == op) else ("same_object",)
+        fresh = None
+        for variant in variants:
+            obj = rebuild(M, cls, path)
+            k, _o = observe(M, cls, path, st, {}, True, obj)
+            n += k
+            if variant == "pickled_copy":
+                try:
+                    obj = pickle.loads(pickle.dumps(obj))
+                except Exception:
+                    continue  # judged by the pickle observer
+            real_apply(M, obj, op, st)
+            after = {}
+            npath = tuple(path) + (op,)
+            k, _o = observe(M, cls, npath, nst, after, True, obj)
+            n += k + 1
+            outcomes.add(("purity", opname(op), variant, "clean" if not after else "differs"))
+            if not after:
+                continue
+            if fresh is None:
+                fresh = {}
+                observe(M, cls, npath, nst, fresh, True)
+            for sig0, v in after.items():
+                if sig0 in fresh:
+                    continue  # the fresh object fails in the same way: not an effect of the earlier observers
+                fam = "nested_item_change" if op[0] == "item" else opname(op)
+                sig = f"pure|{fam}_after_observers:{variant}:{v['family']}"
+                x = acc.get(sig)
+                if x is not None:
+                    x["count"] += 1
+                    continue
+                d = dict(v["detail"])
+                d["history"] = [M.describe(op_of(M, i)) for i in path]
+                d["then"] = ["<all observers on c: get/[]/in/is_group/get_group_*/query/items/pickle/== ...>"] + (
+                    ["c = pickle.loads(pickle.dumps(c))"] if variant == "pickled_copy" else []) + [M.describe(op)]
+                d["model_state"] = nst
+                d["fails_as"] = sig0
+                d["fresh_object_for_same_history"] = "passes"
+                acc[sig] = {"signature": sig, "clause": CLAUSES["pure"], "detail": d, "count": 1,
+                            "replay": {"cls": cls, "path": [list(op_of(M, i)) for i in path], "check": "purity",
+                                       "op": list(op), "variant": variant, "seed": M.seed, "signature": sig}}
+    return n
 
 
 # ---------------------------------------------------------------------------
@@ -955,6 +1112,8 @@ def expand_state(M, cls, path, st, acc, outcomes):
     shared = rebuild(M, cls, path)
     for oi, op in enumerate(M.OPS):
         fail, expect, nst, info, reusable = check_mut(M, cls, path, st, op, shared)
+        if expect == "skip":
+            continue
         nmut += 1
         if expect != "ok" and not reusable:
             shared = rebuild(M, cls, path)
@@ -991,6 +1150,15 @@ def work(item):
     -> (violations, [children bytes per state], counters, outcomes)."""
     if item[0] == "P":
         return pair_rows(item[1])
+    if item[0] == "U":
+        _tag, cls, paths, only_items = item
+        M = G["M"]
+        acc = {}
+        outcomes = set()
+        n = 0
+        for path in paths:
+            n += purity(M, cls, path, model_state(M, path), acc, outcomes, only_items)
+        return list(acc.values()), None, (n, 0, 0), outcomes
     _tag, cls, paths, expand = item
     M = G["M"]
     acc = {}
@@ -1092,16 +1260,24 @@ def pair_rows(rows):
     return list(acc.values()), None, (n, 0, 0), outs
 
 
-def explore(ctx, M, plans, pair_depth):
+def terminal_op(M, op):
+    """Children reached by writing an int / float / enum value or the separator-laden string are observed (all
+    observers, all equality operands) but not expanded further: the conversion happens at write time and the stored
+    "1" / "1.5" / "a|55=a" are plain strings to every later mutator. Expanded values: "a" and the empty string."""
+    return op[0] in ("set", "setitem") and M.VALUES[op[2]][2] in ("int", "float", "enum", "sep")
+
+
+def explore(ctx, M, plans, pair_depth, purity_all_depth, purity_item_depth):
     """Level-synchronous BFS for several root classes at once (one process pool per level: forking is the
     expensive part on small levels, so tiny levels run in-process).
     plans: list of (root class, depth). The all-pairs equality matrix over the states of depth <= pair_depth of
-    the first plan is evaluated together with level pair_depth+1."""
+    the first plan is evaluated together with level pair_depth+1. The purity pass runs for the states of the
+    first plan: every mutator up to purity_all_depth, the nested-item mutators up to purity_item_depth."""
     G["M"] = M
-    exps = [{"cls": cls, "depth": depth, "seen": {key8(())}, "level": [()], "per_level": []}
+    exps = [{"cls": cls, "depth": depth, "seen": {key8(())}, "level": [()], "term": [], "per_level": []}
             for cls, depth in plans]
     shallow = []
-    tot_states = tot_obs = tot_mut = tot_nontriv = tot_pair = 0
+    tot_states = tot_obs = tot_mut = tot_nontriv = tot_pair = tot_pure = n_pure_states = 0
     for d in range(max(depth for _c, depth in plans) + 1):
         items = []
         owners = []
@@ -1109,18 +1285,28 @@ def explore(ctx, M, plans, pair_depth):
         for e in exps:
             if d > e["depth"]:
                 continue
-            level = e["level"]
             expand = d < e["depth"]
-            size = 8 if expand else 96
-            size = max(1, min(size, len(level) // (ctx.workers * 4) or 1))
-            for i in range(0, len(level), size):
-                items.append(("S", e["cls"], level[i:i + size], expand))
-                owners.append(e)
-            if expand:
-                n_expand += len(level)
-            else:
-                n_leaf += len(level)
+            for level, ex in ((e["level"], expand), (e["term"], False)):
+                size = 8 if ex else 96
+                size = max(1, min(size, len(level) // (ctx.workers * 4) or 1))
+                for i in range(0, len(level), size):
+                    items.append(("S", e["cls"], level[i:i + size], ex))
+                    owners.append(e)
+                if ex:
+                    n_expand += len(level)
+                else:
+                    n_leaf += len(level)
             e["next"] = []
+            e["next_term"] = []
+        e0 = exps[0]
+        if d <= max(purity_all_depth, purity_item_depth) and d < e0["depth"]:
+            lv = e0["level"]
+            only_items = d > purity_all_depth
+            size = 1 if not only_items else 16
+            for i in range(0, len(lv), size):
+                items.append(("U", e0["cls"], lv[i:i + size], only_items))
+                owners.append("pure")
+            n_pure_states += len(lv)
         if d == pair_depth + 1:
             states = [model_state(M, p) for p in shallow]
             G["pair_states"] = states
@@ -1130,7 +1316,7 @@ def explore(ctx, M, plans, pair_depth):
             for i in range(0, len(states), 8):
                 items.append(("P", list(range(i, min(i + 8, len(states))))))
                 owners.append(None)
-        if n_expand <= 40 and n_leaf <= 1500 and not (d == pair_depth + 1):
+        if n_expand <= 1 and n_leaf <= 200 and d != pair_depth + 1:
             res = [work(x) for x in items]
         else:
             res = ctx.pmap(work, items, chunk=1)
@@ -1141,27 +1327,36 @@ def explore(ctx, M, plans, pair_depth):
             if e is None:
                 tot_pair += nc
                 continue
+            if e == "pure":
+                tot_pure += nc
+                continue
             tot_obs += nc
             tot_mut += nm
             tot_nontriv += nt
-            seen, nxt = e["seen"], e["next"]
+            if not item[3]:
+                continue
+            seen, nxt, nxt_term = e["seen"], e["next"], e["next_term"]
             for p, kids in zip(item[2], kidlist):
                 for o in range(0, len(kids), 10):
                     h = kids[o:o + 8]
                     if h not in seen:
                         seen.add(h)
-                        nxt.append(p + (kids[o + 8] | (kids[o + 9] << 8),))
+                        oi = kids[o + 8] | (kids[o + 9] << 8)
+                        (nxt_term if terminal_op(M, M.OPS[oi]) else nxt).append(p + (oi,))
         for e in exps:
             if d > e["depth"]:
                 continue
-            tot_states += len(e["level"])
-            e["per_level"].append(len(e["level"]))
+            n = len(e["level"]) + len(e["term"])
+            tot_states += n
+            e["per_level"].append(n)
             if e is exps[0] and d <= pair_depth:
                 shallow.extend(e["level"])
+                shallow.extend(e["term"])
             e["level"] = e.pop("next")
-    ctx.count(states=tot_states, transitions=tot_mut, evaluations=tot_obs + tot_mut + tot_pair,
+            e["term"] = e.pop("next_term")
+    ctx.count(states=tot_states, transitions=tot_mut, evaluations=tot_obs + tot_mut + tot_pair + tot_pure,
               traces=tot_states + tot_mut, nontrivial=tot_nontriv, observer_calls=tot_obs,
-              pair_comparisons=tot_pair)
+              pair_comparisons=tot_pair, purity_calls=tot_pure, purity_states=n_pure_states)
     return [e["per_level"] for e in exps], shallow
 
 
@@ -1176,7 +1371,11 @@ def run(ctx):
         "get_group_list, get_group_by_index, get_group_by_tag, query, items, pickle, == with derived containers and "
         "dicts with/without framing tags) are applied under every spelling; every mutator variant is executed on a "
         "fresh real object and the real state is read back and compared; plus the full equality matrix over all "
-        "states of depth <= 2. On the deepest level the equality observers use one derived second operand per kind "
+        "states of depth <= 2; plus the purity pass: on one object all observers, then a mutator (also on a pickled "
+        "copy), then all observers again, compared with a fresh object (every mutator on states of depth <= 1 "
+        "(thorough 2), nested-item mutators one level deeper). Mutators include set/replace/del on a group item "
+        "reached through get_group_by_index / get_group_list / get_group_by_tag. States reached by writing an "
+        "int/float/enum value or the separator string are observed but not expanded. On the deepest level the equality observers use one derived second operand per kind "
         "instead of one per tag. non-trivial = state holding a repeating group with at least two items"
     )
     ctx.bounds = {
@@ -1185,7 +1384,8 @@ def run(ctx):
         "group_items": [M.item_src(i, 0) for i in range(len(M.ITEMS))], "nesting": 1,
         "pair_matrix_depth": 2,
     }
-    (lv1, lv2), shallow = explore(ctx, M, [("FIXMessage", depth), ("FIXContainer", depth - 1)], 2)
+    (lv1, lv2), shallow = explore(ctx, M, [("FIXMessage", depth), ("FIXContainer", depth - 1)], 2,
+                                  1 if ctx.quick else 2, 2 if ctx.quick else 3)
     ctx.bounds["states_per_level_FIXMessage"] = lv1
     ctx.bounds["states_per_level_FIXContainer"] = lv2
     ctx.bounds["pair_matrix_states"] = len(shallow)
@@ -1194,7 +1394,10 @@ def run(ctx):
     ctx.assumptions += [
         "values are restricted to str/int/float/enum instances (no classes: setting an exception class as a value "
         "is a separate, test-pinned feature outside the property)",
-        "group items are not mutated after they were added (aliasing is not part of the property)",
+        "a dict / FIXContainer passed to add_group / set_group is not modified by the caller afterwards (aliasing of "
+        "the argument is not part of the property); items are modified only through the group accessors",
+        "histories continue only after the str values \"a\" and \"\": an int/float/enum value or the string with "
+        "separators \"a|55=a\" is the last operation of its history",
         "deleting a missing tag, explicit negative/oversized indexes, query() on a container holding groups, "
         "order-only differences in equality and which of several matching items get_group_by_tag returns are "
         "unconstrained",
@@ -1223,6 +1426,10 @@ def replay(ctx, rep):
         acc = {}
         if rep["check"] == "observe":
             observe(M, cls, path, st, acc)
+        elif rep["check"] == "purity":
+            sub = Menu(M.seed)
+            sub.OPS = [tuple(rep["op"])]
+            purity(sub, cls, path, st, acc, set())
         else:
             op = tuple(rep["op"])
             fail, expect, nst, info, _r = check_mut(M, cls, path, st, op)
